@@ -48,8 +48,17 @@ def cases(ctx):
                             out.append({'kind': kind, 'stage': stage, 'clean_up': cu, 'allow_incomplete': ai, 'wait': wait,
                                         'n': n, 'bs': bs, 'engine': rng.choice(['joblib', 'h5netcdf']) if kind == 'harvester' else 'pickle',
                                         'shuffle': rng.choice([0, 5])})
+    # reap(sync=False): the data are returned and recorded as the last result, the farmer's store is not touched, and the
+    # directory goes exactly when the resolved clean_up says so
+    for n, bs in shapes[:1]:
+        for kind in ('harvester', 'sampler'):
+            for cu in (None, True, False):
+                for ai in (False, True):
+                    out.append({'kind': kind, 'stage': 'none', 'clean_up': cu, 'allow_incomplete': ai, 'wait': False, 'sync': False,
+                                'n': n, 'bs': bs, 'engine': 'joblib' if kind == 'harvester' else 'pickle', 'shuffle': 0})
     for c in out:
         ctx.count('kind', c['kind']); ctx.count('stage', c['stage']); ctx.count('clean_up', c['clean_up'])
+        ctx.count('sync', c.get('sync', True))
     return out
 
 
@@ -161,6 +170,7 @@ def run_real(c, ctx):
             setattr(farmer, meth, syncing)
         opts = dict(allow_incomplete=c['allow_incomplete'], wait=c['wait'])
         if c['clean_up'] is not None: opts['clean_up'] = c['clean_up']
+        if c.get('sync') is False: opts['sync'] = False
 
         def attempt():
             try:
@@ -278,7 +288,9 @@ def oracle(c, obs):
     final = first_ok['ls']
     if resolved and final is not None: return 'clean-up applied but the crop directory is still there'
     if not resolved and final is None: return 'the crop directory was deleted although clean-up did not apply'
-    if c['kind'] in ('harvester', 'sampler'):
+    if c.get('sync') is False:
+        if first_ok.get('store') is not None: return "reap(sync=False) wrote to the farmer's store"
+    elif c['kind'] in ('harvester', 'sampler'):
         st = first_ok.get('store')
         if st is None or 'unreadable' in (st or {}): return 'crop reaped but the data file does not hold the data'
         if c['stage'] == 'finishing':
